@@ -127,6 +127,15 @@ func c16Actions() []c16Action {
 		}},
 		{"admin-DeleteUser", "deleteUserHandler", "", form(deleteUserPath, func(x *c16World) *http.Cookie { return x.ckAdmin }, url.Values{"username": {"alice"}})},
 		{"admin-BootstrapOTP", "generateBootstrapOTP", "", form(generateBoostrapOTPPath, func(x *c16World) *http.Cookie { return x.ckAdmin }, url.Values{"username": {"carol"}})},
+		// a saver whose profile READ is not answered by the primary in time (it is served
+		// from the local cache, last synchronised before the scenario starts) while the
+		// primary is reachable again when the same request writes
+		{"totp-GenerateNew-read-from-cache", "GenerateNewTOTP", "", func(x *c16World, twin int) *http.Request {
+			copyDBIntoSQLite(x.w.state.db, x.w.state.cacheDB, "sqlite")
+			r := vfReq{Method: "POST", Path: totpGeneratNewPath, Cookies: []*http.Cookie{x.ckA}, Form: url.Values{}}.Build()
+			r.Header.Set("X-Vf-Primary-Reads-Time-Out", "1")
+			return r
+		}},
 		{"cleanup-pass", "performStateCleanup", "", func(x *c16World, twin int) *http.Request {
 			r, _ := http.NewRequest("VF-CLEANUP", "/", nil)
 			return r
@@ -178,7 +187,14 @@ func c16Serve(x *c16World, req *http.Request) (int, bool) {
 	if req.RemoteAddr == "" || req.RemoteAddr == "192.0.2.1:1234" {
 		req.RemoteAddr = "10.0.0.5:40000"
 	}
-	x.w.handler.ServeHTTP(rec, req)
+	if req.Header.Get("X-Vf-Primary-Reads-Time-Out") != "" {
+		req.Header.Del("X-Vf-Primary-Reads-Time-Out")
+		x.w.setPrimaryReadOutage(true)
+		x.w.handler.ServeHTTP(rec, req)
+		x.w.setPrimaryReadOutage(false)
+	} else {
+		x.w.handler.ServeHTTP(rec, req)
+	}
 	up := false
 	for _, c := range (&http.Response{Header: rec.Header()}).Cookies() {
 		if c.Name == authCookieName && c.Value != "" {
@@ -283,6 +299,30 @@ func c16Judge(acts []c16Action, ex *vsched.Exec, o c16Outcome, ref map[string]bo
 	for _, r := range ex.Races() {
 		keys = append(keys, "C16|race|"+r)
 		whats = append(whats, fmt.Sprintf("unordered conflicting accesses to RuntimeState.%s while running %s (schedule %v)", r, pair, ex.Choices))
+	}
+	// an acknowledged disable / delete that is not in effect at the end although every
+	// other request of the scenario was REFUSED: nobody was entitled to bring the token
+	// back, whatever the order (this also holds when the requests run one after another)
+	for i, a := range acts {
+		if !(o.Codes[i]/100 == 2 || o.Codes[i]/100 == 3) || !(strings.HasPrefix(a.Kind, "disable:") || strings.HasPrefix(a.Kind, "delete:")) {
+			continue
+		}
+		othersRefused := len(acts) > 1
+		for j := range acts {
+			if j != i && o.Codes[j] < 400 {
+				othersRefused = false
+			}
+		}
+		tok := map[string]string{"disable:u2f": "u2f2:true", "delete:u2f": "u2f2:", "disable:totp": "totp1:true", "delete:totp": "totp1:"}[a.Kind]
+		if othersRefused && tok != "" && strings.Contains(o.Final, tok) {
+			for j, b := range acts {
+				if j != i {
+					keys = append(keys, fmt.Sprintf("C16|undo|%s.%s×%s.%s|undone-by-a-refused-request", a.Handler, a.Name, b.Handler, b.Name))
+					whats = append(whats, fmt.Sprintf("%s was acknowledged (%d), %s was refused (%d), yet at the end: %s (running %s, schedule %v)", a.Name, o.Codes[i], b.Name, o.Codes[j], o.Final, pair, ex.Choices))
+				}
+			}
+			return keys, whats, ""
+		}
 	}
 	if ref[o.String()] {
 		return keys, whats, "serializable"
@@ -397,7 +437,7 @@ func init() {
 	vfRegister(&vfeng.Check{
 		ID:    "C16",
 		Level: "model_checking",
-		Rule:  "plus 7 (thorough 9) scenarios against a daemon whose password backend is Okta (fake Okta RoundTripper): logins and second-factor requests touching expired / live entries of the backend's own session cache, with that package's mutex as scheduling point and its map accesses probed; stateless model checking of the real handlers under a controlled cooperative scheduler (vsched): for every unordered pair (incl. twins) of 20 request kinds and one pass of the real background clean-up loop that save or delete a profile, consume a one-time value or touch a shared map (thorough: also triples {Disable|Delete} x saver x saver and one-time triples), all interleavings at shim-lock and storage-operation (LoadUserProfile/SaveUserProfile/DeleteUserProfile/...) granularity with at most 2 preemptions (thorough 3) are executed on fresh instances; per execution: vector-clock analysis of the probed RuntimeState fields (localAuthData, vipPushCookie, pendingOauth2, totpLocalRateLimit, signer fields), deadlock/hang detection, and comparison of (responses, upgraded cookies, final token state) with the outcomes of all sequential orders of the same handlers; plus two unseal injections racing each other and a reader of the CA material on a sealed instance (signer fields race-free, one acknowledged transition)",
+		Rule:  "plus 7 (thorough 9) scenarios against a daemon whose password backend is Okta (fake Okta RoundTripper): logins and second-factor requests touching expired / live entries of the backend's own session cache, with that package's mutex as scheduling point and its map accesses probed; stateless model checking of the real handlers under a controlled cooperative scheduler (vsched): for every unordered pair (incl. twins) of 21 request kinds (one of them served from the cache because the primary does not answer its profile read in time) and one pass of the real background clean-up loop that save or delete a profile, consume a one-time value or touch a shared map (thorough: also triples {Disable|Delete} x saver x saver and one-time triples), all interleavings at shim-lock and storage-operation (LoadUserProfile/SaveUserProfile/DeleteUserProfile/...) granularity with at most 2 preemptions (thorough 3) are executed on fresh instances; per execution: vector-clock analysis of the probed RuntimeState fields (localAuthData, vipPushCookie, pendingOauth2, totpLocalRateLimit, signer fields), deadlock/hang detection, and comparison of (responses, upgraded cookies, final token state) with the outcomes of all sequential orders of the same handlers; plus two unseal injections racing each other and a reader of the CA material on a sealed instance (signer fields race-free, one acknowledged transition)",
 		Assumptions: []string{"preemption happens only at scheduling points: shim Lock, entry and exit of storage operations, spawn, thread end; critical sections of real mutexes (metrics, limiter, admin cache) are atomic at this granularity", "a non-serialisable outcome is a violation only when an acknowledged disable/delete is not in effect at the end or one one-time value is honoured twice; other lost updates are counted in the evidence", "races on fields without probes are left to the Go race detector (not part of this verdict)"},
 		Bounds: func(tier string) map[string]interface{} {
 			b := 2
